@@ -1222,3 +1222,20 @@ Proof.
   split; [vm_compute; reflexivity|].
   intros dtype dim_size. unfold sds_scale_guard, truth. destruct (dtype =? 0); reflexivity.
 Qed.
+
+(** * Calls that must be reached (round 4) *)
+Lemma palette_written_lemma :
+  only_guard copy_gr_writelut_guards txt_has_pal = true /\ only_guard copy_gr_readlut_guards txt_has_pal = true.
+Proof. vm_compute. split; reflexivity. Qed.
+
+Lemma gr_file_attrs_reached_lemma :
+  list_glb_gr_attrs_guards = [] /\ forallb benign_exit list_glb_exits_before_gr_attrs = true.
+Proof. vm_compute. split; reflexivity. Qed.
+
+Lemma gr_started_lemma : forall ni na, 0 <= ni -> 0 <= na ->
+  truth (has_gr_elems ni na) = false -> ni = 0 /\ na = 0.
+Proof.
+  intros ni na Hi Ha H. unfold has_gr_elems, truth in H.
+  destruct (0 <? ni) eqn:E1; destruct (0 <? na) eqn:E2; simpl in H; try discriminate.
+  apply Z.ltb_ge in E1. apply Z.ltb_ge in E2. lia.
+Qed.
